@@ -30,10 +30,13 @@ type table struct {
 
 type model struct {
 	Tables []*table
+	// Virt: the virtual table vt (an R*Tree index) exists. It has no HCL form, so from then on the
+	// last file is hand-written only.
+	Virt bool
 }
 
 func (m *model) clone() *model {
-	n := &model{}
+	n := &model{Virt: m.Virt}
 	for _, t := range m.Tables {
 		c := &table{Name: t.Name, Cols: append([]col(nil), t.Cols...), Idx: map[string]string{}, Checks: append([]string(nil), t.Checks...), Ref: t.Ref}
 		for k, v := range t.Idx {
@@ -77,6 +80,9 @@ func (m *model) canon() string {
 		out = append(out, fmt.Sprintf("%s(%s|%s|%s|%s)", t.Name, strings.Join(cs, ","), strings.Join(ix, ","), strings.Join(t.Checks, ","), t.Ref))
 	}
 	sort.Strings(out)
+	if m.Virt {
+		out = append(out, "virtual:vt")
+	}
 	return strings.Join(out, ";")
 }
 
@@ -154,6 +160,8 @@ type expect struct {
 	What string // table / column name
 	// the statement (by prefix) the diagnostic position must fall into.
 	StmtPrefix []string
+	// Optional: may be reported, need not be (the shadow tables SQLite drops together with a virtual table).
+	Optional bool
 }
 
 type step struct {
@@ -214,10 +222,27 @@ func ops(m *model, k int) (out []struct {
 	next *model
 }) {
 	add := func(s step, next *model) {
+		if m.Virt || next.Virt {
+			s.ViaDiff = false
+		}
 		out = append(out, struct {
 			s    step
 			next *model
 		}{s, next})
+	}
+	if !m.Virt {
+		n := m.clone()
+		n.Virt = true
+		add(step{Op: "add_virtual_table", SQL: []string{"CREATE VIRTUAL TABLE `vt` USING rtree(id, minx, maxx)"}}, n)
+	} else {
+		n := m.clone()
+		n.Virt = false
+		add(step{Op: "drop_virtual_table", SQL: []string{"DROP TABLE `vt`"}, Expect: []expect{
+			{Code: "DS102", What: "vt", StmtPrefix: []string{"DROP TABLE `vt`"}},
+			{Code: "DS102", What: "vt_node", StmtPrefix: []string{"DROP TABLE `vt`"}, Optional: true},
+			{Code: "DS102", What: "vt_rowid", StmtPrefix: []string{"DROP TABLE `vt`"}, Optional: true},
+			{Code: "DS102", What: "vt_parent", StmtPrefix: []string{"DROP TABLE `vt`"}, Optional: true},
+		}}, n)
 	}
 	t := m.table("t")
 	// add table
@@ -258,7 +283,7 @@ func ops(m *model, k int) (out []struct {
 				}
 			}
 			add(step{Op: "drop_column_alter", SQL: []string{"ALTER TABLE `t` DROP COLUMN `b`"},
-				Expect: []expect{{"DS103", "b", []string{"ALTER TABLE `t` DROP COLUMN `b`"}}}}, n)
+				Expect: []expect{{"DS103", "b", []string{"ALTER TABLE `t` DROP COLUMN `b`"}, false}}}, n)
 			stmts, _ := rebuild(m, "t", func(x *table) {
 				for i, c := range x.Cols {
 					if c.Name == "b" {
@@ -268,12 +293,12 @@ func ops(m *model, k int) (out []struct {
 				}
 			})
 			add(step{Op: "drop_column_rebuild", SQL: stmts, ViaDiff: true,
-				Expect: []expect{{"DS103", "b", []string{"CREATE TABLE `new_t`", "ALTER TABLE `t` DROP COLUMN `b`"}}}}, n)
+				Expect: []expect{{"DS103", "b", []string{"CREATE TABLE `new_t`", "ALTER TABLE `t` DROP COLUMN `b`"}, false}}}, n)
 			// the column is dropped and a column of the same name added back in the same file: its data is gone.
 			add(step{Op: "drop_readd_column", SQL: []string{"ALTER TABLE `t` DROP COLUMN `b`", "ALTER TABLE `t` ADD COLUMN `b` text NULL"},
-				Expect: []expect{{"DS103", "b", []string{"ALTER TABLE `t` DROP COLUMN `b`"}}}}, readd(m))
+				Expect: []expect{{"DS103", "b", []string{"ALTER TABLE `t` DROP COLUMN `b`"}, false}}}, readd(m))
 			add(step{Op: "rebuild_drop_readd_column", SQL: append(append([]string{}, stmts...), "ALTER TABLE `t` ADD COLUMN `b` text NULL"),
-				Expect: []expect{{"DS103", "b", []string{"CREATE TABLE `new_t`", "ALTER TABLE `t` DROP COLUMN `b`"}}}}, readd(m))
+				Expect: []expect{{"DS103", "b", []string{"CREATE TABLE `new_t`", "ALTER TABLE `t` DROP COLUMN `b`"}, false}}}, readd(m))
 		}
 		// dropped, added back and dropped again: the column is gone.
 		if t.col("b") != nil {
@@ -286,7 +311,7 @@ func ops(m *model, k int) (out []struct {
 				}
 			}
 			add(step{Op: "drop_readd_drop_column", SQL: []string{"ALTER TABLE `t` DROP COLUMN `b`", "ALTER TABLE `t` ADD COLUMN `b` text NULL", "ALTER TABLE `t` DROP COLUMN `b`"},
-				Expect: []expect{{"DS103", "b", []string{"ALTER TABLE `t` DROP COLUMN `b`"}}}}, n)
+				Expect: []expect{{"DS103", "b", []string{"ALTER TABLE `t` DROP COLUMN `b`"}, false}}}, n)
 		}
 		// change column type a integer -> text by rebuild: nothing lost
 		if c := t.col("a"); c != nil && c.Type == "integer" {
@@ -326,7 +351,7 @@ func ops(m *model, k int) (out []struct {
 			}
 			nt.Cols = keep
 			add(step{Op: "drop_virtual_then_ordinary_column", SQL: []string{"ALTER TABLE `t` DROP COLUMN `g`", "ALTER TABLE `t` DROP COLUMN `b`"},
-				Expect: []expect{{"DS103", "b", []string{"ALTER TABLE `t` DROP COLUMN `b`"}}}}, n)
+				Expect: []expect{{"DS103", "b", []string{"ALTER TABLE `t` DROP COLUMN `b`"}, false}}}, n)
 		}
 		// temporary column within one file
 		add(step{Op: "temp_column", SQL: []string{fmt.Sprintf("ALTER TABLE `t` ADD COLUMN `tmp%d` integer NULL", k), fmt.Sprintf("ALTER TABLE `t` DROP COLUMN `tmp%d`", k)}}, m.clone())
@@ -350,7 +375,7 @@ func ops(m *model, k int) (out []struct {
 				}
 			}
 			body = append(body, "DROP TABLE `u`")
-			add(step{Op: "rebuild_then_drop_table", SQL: body, Expect: []expect{{"DS102", "u", []string{"DROP TABLE `u`"}}}}, n)
+			add(step{Op: "rebuild_then_drop_table", SQL: body, Expect: []expect{{"DS102", "u", []string{"DROP TABLE `u`"}, false}}}, n)
 		}
 	}
 	// two tables rebuilt in one file: nothing is lost
@@ -379,12 +404,12 @@ func ops(m *model, k int) (out []struct {
 				break
 			}
 		}
-		add(step{Op: "drop_table", SQL: []string{"DROP TABLE `u`"}, ViaDiff: true, Expect: []expect{{"DS102", "u", []string{"DROP TABLE `u`"}}}}, n)
+		add(step{Op: "drop_table", SQL: []string{"DROP TABLE `u`"}, ViaDiff: true, Expect: []expect{{"DS102", "u", []string{"DROP TABLE `u`"}, false}}}, n)
 	}
 	// table u dropped and a table of the same name created again in the same file: its rows are gone.
 	if u := m.table("u"); u != nil {
 		add(step{Op: "drop_recreate_table", SQL: []string{"DROP TABLE `u`", createSQL(u, "u")},
-			Expect: []expect{{"DS102", "u", []string{"DROP TABLE `u`"}}}}, m.clone())
+			Expect: []expect{{"DS102", "u", []string{"DROP TABLE `u`"}, false}}}, m.clone())
 	}
 	// dropped, created again and dropped again in one file: the table and its rows are gone.
 	if u := m.table("u"); u != nil {
@@ -396,7 +421,7 @@ func ops(m *model, k int) (out []struct {
 			}
 		}
 		add(step{Op: "drop_recreate_drop_table", SQL: []string{"DROP TABLE `u`", createSQL(u, "u"), "DROP TABLE `u`"},
-			Expect: []expect{{"DS102", "u", []string{"DROP TABLE `u`"}}}}, n)
+			Expect: []expect{{"DS102", "u", []string{"DROP TABLE `u`"}, false}}}, n)
 	}
 	// long files (more than 10 statements; the analyzers' loader treats long files specially):
 	// (a) five temporary tables created and dropped, then DROP TABLE u;
@@ -414,7 +439,7 @@ func ops(m *model, k int) (out []struct {
 			body = append(body, fmt.Sprintf("CREATE TABLE `tmpl%d_%d` (`id` integer)", k, i), fmt.Sprintf("DROP TABLE `tmpl%d_%d`", k, i))
 		}
 		body = append(body, "DROP TABLE `u`")
-		add(step{Op: "long_file_drop_table", SQL: body, Expect: []expect{{"DS102", "u", []string{"DROP TABLE `u`"}}}}, n)
+		add(step{Op: "long_file_drop_table", SQL: body, Expect: []expect{{"DS102", "u", []string{"DROP TABLE `u`"}, false}}}, n)
 	}
 	if t != nil && t.col("b") != nil && m.table("u") != nil && len(m.table("u").Checks) == 0 && len(t.Idx) == 0 {
 		n := m.clone()
@@ -444,7 +469,7 @@ func ops(m *model, k int) (out []struct {
 		body = append(body, "PRAGMA foreign_keys = on", fmt.Sprintf("CREATE TABLE `extra%d` (`id` integer)", k))
 		n.Tables = append(n.Tables, &table{Name: fmt.Sprintf("extra%d", k), Cols: []col{{"id", "integer", ""}}, Idx: map[string]string{}})
 		add(step{Op: "long_file_two_rebuilds_drop_column", SQL: body,
-			Expect: []expect{{"DS103", "b", []string{"CREATE TABLE `new_t`", "ALTER TABLE `t` DROP COLUMN `b`"}}}}, n)
+			Expect: []expect{{"DS103", "b", []string{"CREATE TABLE `new_t`", "ALTER TABLE `t` DROP COLUMN `b`"}, false}}}, n)
 	}
 	// a table literally named new_u is created (not a rebuild: no copy, no rename follows), more tables
 	// are created, and only then u is dropped: the drop is a real one.
@@ -463,7 +488,7 @@ func ops(m *model, k int) (out []struct {
 			body = append(body, createSQL(t, name))
 		}
 		body = append(body, "DROP TABLE `u`")
-		add(step{Op: "create_new_prefixed_table_then_drop", SQL: body, Expect: []expect{{"DS102", "u", []string{"DROP TABLE `u`"}}}}, n)
+		add(step{Op: "create_new_prefixed_table_then_drop", SQL: body, Expect: []expect{{"DS102", "u", []string{"DROP TABLE `u`"}, false}}}, n)
 	}
 	// statements that begin like the rebuild of u (create new_u, copy, drop u) but do not end in
 	// "rename new_u to u": u is gone for good.
@@ -486,7 +511,7 @@ func ops(m *model, k int) (out []struct {
 			}
 			cl := strings.Join(cs, ", ")
 			body := []string{createSQL(nu, "new_u"), "INSERT INTO `new_u` (" + cl + ") SELECT " + cl + " FROM `u`", "DROP TABLE `u`", tail}
-			add(step{Op: extraName, SQL: body, Expect: []expect{{"DS102", "u", []string{"DROP TABLE `u`"}}}}, n)
+			add(step{Op: extraName, SQL: body, Expect: []expect{{"DS102", "u", []string{"DROP TABLE `u`"}, false}}}, n)
 		}
 		drop("copy_drop_then_index_instead_of_rename", "CREATE INDEX `new_u_id` ON `new_u` (`id`)",
 			&table{Name: "new_u", Cols: append([]col(nil), u.Cols...), Idx: map[string]string{}})
@@ -501,7 +526,7 @@ func ops(m *model, k int) (out []struct {
 				continue
 			}
 			n := m.clone()
-			want := []expect{{"DS102", "t", []string{"DROP TABLE `t`"}}}
+			want := []expect{{"DS102", "t", []string{"DROP TABLE `t`"}, false}}
 			mid := "DROP TABLE `u`"
 			if variant == "table" {
 				for i, x := range n.Tables {
@@ -510,7 +535,7 @@ func ops(m *model, k int) (out []struct {
 						break
 					}
 				}
-				want = append(want, expect{"DS102", "u", []string{"DROP TABLE `u`"}})
+				want = append(want, expect{"DS102", "u", []string{"DROP TABLE `u`"}, false})
 			} else {
 				nu := n.table("u")
 				for i, c := range nu.Cols {
@@ -520,7 +545,7 @@ func ops(m *model, k int) (out []struct {
 					}
 				}
 				mid = "ALTER TABLE `u` DROP COLUMN `v`"
-				want = append(want, expect{"DS103", "v", []string{mid}})
+				want = append(want, expect{"DS103", "v", []string{mid}, false})
 			}
 			add(step{Op: "rebuild_shape_with_drop_" + variant + "_instead_of_copy", SQL: []string{createSQL(t, "new_t"), mid, "DROP TABLE `t`", "ALTER TABLE `new_t` RENAME TO `t`"}, Expect: want}, n)
 		}
@@ -543,7 +568,7 @@ func ops(m *model, k int) (out []struct {
 			}
 		}
 		add(step{Op: "drop_column_nolint_then_drop_table", SQL: []string{"-- atlas:nolint DS103\nALTER TABLE `t` DROP COLUMN `b`", "DROP TABLE `u`"},
-			Expect: []expect{{"DS102", "u", []string{"DROP TABLE `u`"}}}}, n)
+			Expect: []expect{{"DS102", "u", []string{"DROP TABLE `u`"}, false}}}, n)
 	}
 	// temporary table within one file
 	add(step{Op: "temp_table", SQL: []string{fmt.Sprintf("CREATE TABLE `tmpt%d` (`id` integer)", k), fmt.Sprintf("DROP TABLE `tmpt%d`", k)}}, m.clone())
@@ -747,7 +772,7 @@ func Eval(c Case) (problems []string, skipped string) {
 					bad("%s: %s for %q is reported at position %d (%q), not on the statement that causes it (%v)", f.Name, g.code, e.What, g.pos, f.Text[g.pos:end], e.StmtPrefix)
 				}
 			}
-			if !found {
+			if !found && !e.Optional {
 				bad("%s removes %s %q that existed before the file, but lint reports no %s (diagnostics: %v)\n%s", f.Name, map[string]string{"DS102": "table", "DS103": "column"}[e.Code], e.What, e.Code, got, f.Text)
 			}
 		}
@@ -788,7 +813,7 @@ func Run(r *report.Run) {
 	if r.Tier == "thorough" {
 		depth = 3
 	}
-	r.Rule = fmt.Sprintf("BFS to depth %d over schema evolutions of a two-table SQLite schema (add table, add a table whose foreign key references the table that later files rebuild, add nullable column, add index, drop column by ALTER, drop column by table rebuild, drop column (by ALTER / by rebuild) and add it back in the same file, drop table, drop table and create it again in the same file, change type by rebuild, add check by rebuild, drop VIRTUAL column, temporary table / temporary column inside one file, a rebuild directly followed by DROP TABLE, two rebuilds in one file, two destructive statements of which one is silenced by atlas:nolint, a table / column dropped, added back and dropped again, files of more than 10 statements ending in DROP TABLE / containing a column-dropping rebuild); every history becomes a migration directory in which the last file is written by hand and, where the evolution can be expressed as a desired schema, also by the real `atlas migrate diff` (earlier files hand-written); x --latest N for every N<=depth (and, for --latest 1, the hand-written file saved with CR LF line endings below 200 comment lines); the line number atlas prints for each diagnostic must be the line its byte position is on; the file-level error of each file report follows the file's own diagnostics; the real `atlas migrate lint` runs against a real SQLite dev database; states de-duplicated by the canonical schema model for expansion; non-trivial = every directory; distinct = (history, producer, N)", depth)
+	r.Rule = fmt.Sprintf("BFS to depth %d over schema evolutions of a two-table SQLite schema (add table, add a table whose foreign key references the table that later files rebuild, create a virtual table (R*Tree) / drop it in a later file, add nullable column, add index, drop column by ALTER, drop column by table rebuild, drop column (by ALTER / by rebuild) and add it back in the same file, drop table, drop table and create it again in the same file, change type by rebuild, add check by rebuild, drop VIRTUAL column, temporary table / temporary column inside one file, a rebuild directly followed by DROP TABLE, two rebuilds in one file, two destructive statements of which one is silenced by atlas:nolint, a table / column dropped, added back and dropped again, files of more than 10 statements ending in DROP TABLE / containing a column-dropping rebuild); every history becomes a migration directory in which the last file is written by hand and, where the evolution can be expressed as a desired schema, also by the real `atlas migrate diff` (earlier files hand-written); x --latest N for every N<=depth (and, for --latest 1, the hand-written file saved with CR LF line endings below 200 comment lines); the line number atlas prints for each diagnostic must be the line its byte position is on; the file-level error of each file report follows the file's own diagnostics; the real `atlas migrate lint` runs against a real SQLite dev database; states de-duplicated by the canonical schema model for expansion; non-trivial = every directory; distinct = (history, producer, N)", depth)
 	r.Assumptions = []string{
 		"a file is destructive iff it removes a table or a non-virtual column that existed before the file (reference model of the evolution)",
 		"for a table rebuild the diagnostic position is the first statement of the CREATE/INSERT/DROP/RENAME group, as sqlitecheck documents",
